@@ -209,7 +209,7 @@ def r4_scottish(ctx):
     ctx.check(good and len(cand_block) == 1 and len(ballot_block) == 2 and len(uses) == 3, f, uses[0] if uses else f.node,
               "candidate block = data[split:-1], ballot block = data[1:split], same split = len(data) - (cand_num + 1) at all three uses", str(shapes),
               f"slices are {shapes}; all non-constant bounds must equal len(data) - (cand_num + 1)")
-    defs = {astx.u(n.targets[0]): astx.u(n.value) for n in astx.walk_own(f.node) if isinstance(n, ast.Assign)}
+    defs = astx.single_assignments(f.node)
     good = defs.get("(cand_num, seats)") == "(data[0][0], data[0][1])" and defs.get("ward") == "data[-1][0]"
     ctx.check(good, f, f.node, "metadata: (candidates, seats) from the first row, ward from the last", "", f"metadata extraction is {defs.get('(cand_num, seats)')}, {defs.get('ward')}")
     lp = astx.enclosing(cand_block[0], astx.parents(f.node), ast.For) if cand_block else None
